@@ -119,7 +119,11 @@ def check_one(sp, opts, acc, tag=""):
             raise shape.viol(PROP, sp, "runs!=present-frames", tag, f"item {i} runs {segs} present {present.astype(int)}")
     # (2) decode under every allocator state, twice, from both byte sources
     canon = R.encode_block(sp)
-    for src_name, data in (("written", written), ("reference", canon)):
+    # the same storage as other software leaves it: every don't-care byte (padding words, text after the
+    # terminator) filled - once with bytes that are large as integers, once with small ones
+    noisy1 = R.encode_block(sp, junk=lambda k: bytes((i * 7 + 0x41) % 255 + 1 for i in range(k)))
+    noisy2 = R.encode_block(sp, junk=lambda k: bytes([3, 0, 0, 0] * (k // 4 + 1))[:k])
+    for src_name, data in (("written", written), ("reference", canon), ("reference+junk", noisy1), ("reference+small-junk", noisy2)):
         first = None
         for poison in env.POISONS:
             for rep in (0, 1):
